@@ -153,3 +153,11 @@ prop("C02",
            dict(test="^TestC02_Enum$", quick=dict(env=dict(VERIF_C02_FRAGS=2, VERIF_C02_ALPHA=6, VERIF_C02_PARTS=4)),
                 thorough=dict(env=dict(VERIF_C02_FRAGS=3, VERIF_C02_ALPHA=4, VERIF_C02_PARTS=1), shards=16, timeout=3000)),
            dict(test="^TestC02_Enum$", thorough_only=True, thorough=dict(env=dict(VERIF_C02_FRAGS=2, VERIF_C02_ALPHA=6, VERIF_C02_PARTS=1), shards=4, timeout=3000))])
+
+prop("C17",
+     level_text="generated-input search (rapid): 0-3 instrumented extensions, each hook (Init, the four start hooks, the four finish functions, HasResult, GetResult) with a drawn policy {ok, panic(error), panic(string), panic(int), panic(struct)}, over requests of every outcome class (syntax error, validation error, variable error, field errors incl. a panicking resolver, success); oracle = invariants over the recorded event log",
+     note="per extension: pipeline order, one Init, every start hook that returned is matched by exactly one finish, resolve notifications properly nested and closed before execution finishes, phase outcomes (parse error iff syntax error, validation errors iff invalid) when no hook panicked; globally: no panic escapes Do and every panicking hook is reflected by an error naming its extension. The order in which different extensions' finish functions run is not asserted.",
+     technique="property-based testing (rapid): fault injection into hooks, invariant over the event history",
+     rule="requests from a fixed catalogue per outcome class on the kitchen schema; Non-trivial = (>= 2 extensions and >= 1 panic) or a non-error panic value; distinct by case hash.",
+     assumptions=["extension names are unique (the interface asks for that); hooks never return a nil finish function"],
+     runs=[dict(test="^TestC17$", quick=dict(checks=6000), thorough=dict(checks=60000, shards=16, timeout=3000))])
